@@ -71,6 +71,32 @@
             }
             store.wait().await;
         }
+        // (4) a disk hit is not rewritten by its next eviction (its block is far from being reclaimed): device write counter,
+        //     through get() and through get_or_fetch()
+        for via_fetch in [false, true] {
+            let dir = tempfile::tempdir().unwrap();
+            let recorder = Recorder::default();
+            let hybrid = tests::open_with_for_witness(dir.path(), HybridCachePolicy::WriteOnEviction, false, recorder.clone()).await;
+            hybrid.insert(5, vec![5; 7 * KB]);
+            hybrid.memory().evict_all();
+            hybrid.storage().wait().await;
+            let written = hybrid.statistics().disk_write_bytes();
+            let age = if via_fetch {
+                let e = hybrid.get_or_fetch(&5, || async move { Ok::<_, Error>(vec![0; 7 * KB]) }).await.unwrap();
+                (e.source(), e.properties().age())
+            } else {
+                let e = hybrid.get(&5).await.unwrap().unwrap();
+                (e.source(), e.properties().age())
+            };
+            hybrid.memory().evict_all();
+            hybrid.storage().wait().await;
+            let after = hybrid.statistics().disk_write_bytes();
+            if written > 0 && after != written {
+                let how = if via_fetch { "get_or_fetch(5)" } else { "get(5)" };
+                let label = if age.1 != Age::Young { if via_fetch { "disk_hit_re_enters_memory_with_the_age_the_disk_tier_reported" } else { "disk_hit_re_enters_memory_with_the_age_the_disk_tier_reported" } } else { "just_loaded_young_entry_is_not_rewritten" };
+                found.push(format!("WITNESS {label} :: WriteOnEviction: insert(5); evict_all [{written} bytes written]; {how} [{:?}, {:?}]; evict_all => {after} bytes written: the disk hit was written again", age.0, age.1));
+            }
+        }
         for f in found.iter().take(3) { println!("{f}"); }
         println!("WITNESS-SEARCH-DONE found={}", found.len());
     }
